@@ -452,7 +452,71 @@ def call_result(cases, check_impl=None, nontrivial=None, rule="", model_args=Non
                     v["input"] = {"fn": fn, "args": [core.show(a) for a in args]}
                     v["note"] = "failed in the second pass (reverse order) of the same run: depends on what ran before"
                     viol.append(v)
-    return {"evaluations": len(cases) + redo, "distinct_nontrivial": nontriv, "rule": rule, "samples": samples,
+    # third pass: the byte-string arguments carried by bytearray objects (the model is carrier-agnostic; on the pinned
+    # tree every function gives the same outcome for bytes and bytearray)
+    import random as _random
+    import sys as _sys
+    import threading as _threading
+    pick = _random.Random(len(cases))
+    uniq = list(dict.fromkeys(zip([c[0] for c in cases], [c[1] for c in cases], all_lines)))
+    with_bytes = [u for u in uniq if any(isinstance(a, bytes) for a in u[1])]
+    carrier = 0
+    for fn, args, line in (with_bytes if len(with_bytes) <= 1500 else pick.sample(with_bytes, 1500)):
+        a2 = tuple(bytearray(a) if isinstance(a, bytes) else a for a in args)
+        i = core.impl_call(fn, a2)
+        carrier += 1
+        if any(bytes(x) != y for x, y in zip(a2, args) if isinstance(y, bytes)):
+            viol.append({"what": "call modified a bytearray argument", "expected": [core.show(a) for a in args],
+                         "observed": [core.show(bytes(a) if isinstance(a, bytearray) else a) for a in a2],
+                         "input": {"fn": fn, "args": [core.show(a) for a in args], "types": [arg_type(a) for a in a2]}})
+        if i != mres[line]:
+            diffs.append({"fn": fn, "args": [core.show(a) for a in args], "impl": list(i), "model": list(mres[line]),
+                          "pass": "byte strings passed as bytearray"})
+            if check_impl:
+                v = check_impl(fn, args, i)
+                if v:
+                    v = dict(v)
+                    v["input"] = {"fn": fn, "args": [core.show(a) for a in args], "types": [arg_type(a) for a in a2]}
+                    v["note"] = "byte-string arguments passed as bytearray objects"
+                    viol.append(v)
+    # fourth pass: the same calls executed by 8 threads in shuffled order at a minimal switch interval; every function
+    # compared here is deterministic, so each result must still be the model's
+    work = uniq if len(uniq) <= 2500 else pick.sample(uniq, 2500)
+    work = work * (2 if len(work) < 1200 else 1)
+    pick.shuffle(work)
+    results = [None] * len(work)
+
+    def runner(k):
+        for j in range(k, len(work), 8):
+            results[j] = core.impl_call(work[j][0], work[j][1])
+
+    old_si = _sys.getswitchinterval()
+    _sys.setswitchinterval(1e-6)
+    try:
+        ths = [_threading.Thread(target=runner, args=(k,)) for k in range(8)]
+        for t_ in ths:
+            t_.start()
+        for t_ in ths:
+            t_.join()
+    finally:
+        _sys.setswitchinterval(old_si)
+    tdiff = 0
+    for (fn, args, line), i in zip(work, results):
+        if i != mres[line]:
+            tdiff += 1
+            if tdiff <= 20:
+                diffs.append({"fn": fn, "args": [core.show(a) for a in args], "impl": list(i) if i else None, "model": list(mres[line]),
+                              "pass": "8 threads, shuffled"})
+                if check_impl and i:
+                    v = check_impl(fn, args, i)
+                    if v:
+                        v = dict(v)
+                        v["input"] = {"fn": fn, "args": [core.show(a) for a in args]}
+                        v["note"] = "failed when the run's calls were executed concurrently by 8 threads (passes single-threaded?)"
+                        viol.append(v)
+    dist["pass:bytearray_carrier"] = carrier
+    dist["pass:threads8"] = len(work)
+    return {"evaluations": len(cases) + redo + carrier + len(work), "distinct_nontrivial": nontriv, "rule": rule, "samples": samples,
             "distribution": dist, "diffs": diffs, "violations": viol}
 
 
